@@ -156,3 +156,30 @@ func readSVGItems(path string) ([]int, error) {
 	}
 	return items, nil
 }
+
+// read3MFContent decodes a 3MF file and returns its content as integers: unit, object count, and for
+// each object the vertex coordinates (float32 bit patterns) and triangle indices, in file order.
+func read3MFContent(path string) ([]int, error) {
+	r, err := go3mf.OpenReader(path)
+	if err != nil {
+		return nil, err
+	}
+	defer r.Close()
+	var m go3mf.Model
+	if err := r.Decode(&m); err != nil {
+		return nil, err
+	}
+	out := []int{int(m.Units), len(m.Resources.Objects), len(m.Build.Items)}
+	for _, o := range m.Resources.Objects {
+		if o.Mesh == nil {
+			continue
+		}
+		for _, v := range o.Mesh.Vertices.Vertex {
+			out = append(out, int(math.Float32bits(v.X())), int(math.Float32bits(v.Y())), int(math.Float32bits(v.Z())))
+		}
+		for _, t := range o.Mesh.Triangles.Triangle {
+			out = append(out, int(t.V1), int(t.V2), int(t.V3))
+		}
+	}
+	return out, nil
+}
